@@ -182,7 +182,45 @@ pub fn cases(quick: bool) -> Vec<RelCase> {
         }
         let _ = x;
     }
+    // arguments that are not lists as written (an improper list with a ground non-[] tail, an
+    // atom) in the positions a relation has to walk to the end: nothing is related to them
+    let improper: Vec<T> = vec![
+        T::cons(T::I(1), T::I(7)),
+        T::improper(vec![T::I(1), T::I(2)], T::I(7)),
+        T::cons(T::V(100), T::I(7)),
+        T::improper(vec![T::I(2), T::I(1)], T::cons(T::V(100), T::I(7))),
+        T::I(7),
+    ];
+    let others: Vec<T> = vec![T::Nil, T::list(vec![T::I(1)]), T::list(vec![T::I(1), T::I(2)]), T::list(vec![T::I(2), T::I(1)]), T::V(100)];
+    for bad in &improper {
+        for o in &others {
+            out.push(finish(Rel::Permute, vec![bad.clone(), o.clone()]));
+            out.push(finish(Rel::Permute, vec![o.clone(), bad.clone()]));
+            out.push(finish(Rel::Append, vec![bad.clone(), o.clone(), T::V(100)]));
+            out.push(finish(Rel::Append, vec![bad.clone(), T::V(100), o.clone()]));
+        }
+        out.push(finish(Rel::Distinct, vec![bad.clone()]));
+    }
     out
+}
+
+/// The positions a relation walks to the end of the list (so the argument has to BE a list).
+fn walked_positions(rel: Rel) -> &'static [usize] {
+    match rel {
+        Rel::Permute => &[0, 1],
+        Rel::Append => &[0],
+        Rel::Distinct => &[0],
+        _ => &[],
+    }
+}
+
+/// false when the term as written cannot be instantiated to a proper list
+fn can_be_list(t: &T) -> bool {
+    match t {
+        T::Nil | T::V(_) => true,
+        T::Cons(_, tl) => can_be_list(tl),
+        _ => false,
+    }
 }
 
 fn ground_values(big: bool) -> Vec<T> {
@@ -224,6 +262,13 @@ fn check(c: &RelCase, index: usize) -> (Vec<Violation>, &'static str) {
         return (viols, "panic");
     }
     let finite = out.end == End::Exhausted;
+    if walked_positions(c.rel).iter().any(|p| !can_be_list(&c.args[*p])) {
+        // no list is an instance of such an argument: the relation holds for no instance
+        if let Some(a) = out.answers.first() {
+            viols.push(mk("non-list-argument", format!("{} has the answer {} although an argument it has to walk to its end is not a list", sig, a), String::new()));
+        }
+        return (viols, if out.answers.is_empty() { "rejects-non-list" } else { "answers" });
+    }
     // --- soundness: every instance of every answer satisfies the definition
     let iv = inst_values();
     'answers: for a in &out.answers {
